@@ -203,6 +203,49 @@ theorem load_all_graphs {P B D : Type} [DecidableEq D] (c : Codec P B D) (db : L
   rw [verifyAll_spec c shard (allFiles ds) hnd db ds hD hw hsub]
   exact hrs
 
+/-- The manifest's metrics and counts describe the source graph exactly: for every graph of the dump the recorded
+metrics are the metrics of the id-ordered node / relationship streams of that source graph (`metricsOf` of
+`dumpNodeObs` / `dumpEdgeObs`), and its node / relationship counts are the source's. Together with
+`manifest_describes_files` (per-file count, byte size, digest) this is the clause "the manifest's counts,
+checksums and metrics describe exactly the files written". -/
+theorem manifest_metrics_exact {P B D : Type} (c : Codec P B D) (db : List (Graph P)) (hw : ∀ g ∈ db, WF g)
+    (batch shard : Nat) (hb : 1 ≤ batch) :
+    ∃ ds, dumpAll c batch shard db = .ok ds ∧
+      ∀ g d, (g, d) ∈ db.zip ds →
+        metricsOf (dumpNodeObs g) (dumpEdgeObs g) = some d.manifest.metrics ∧
+        d.manifest.nodeCount = g.nodes.length ∧ d.manifest.edgeCount = g.edges.length ∧
+        d.manifest.metrics.nodeCount = g.nodes.length ∧ d.manifest.metrics.edgeCount = g.edges.length := by
+  obtain ⟨ds, hds, hD⟩ := dumpAll_spec c batch shard hb db hw
+  refine ⟨ds, hds, ?_⟩
+  clear hds hw
+  induction db generalizing ds with
+  | nil => intro g d h; simp at h
+  | cons g0 gs ih =>
+    cases ds with
+    | nil => exact absurd hD (by simp [Dumped])
+    | cons d0 ds =>
+      simp only [Dumped] at hD
+      obtain ⟨⟨m, hm, rfl⟩, hrest⟩ := hD
+      intro g d h
+      simp only [List.zip_cons_cons, List.mem_cons, Prod.mk.injEq] at h
+      rcases h with ⟨rfl, rfl⟩ | h
+      · refine ⟨hm, rfl, rfl, ?_, ?_⟩
+        · have : m.nodeCount = (dumpNodeObs g).length := by
+            unfold metricsOf at hm
+            split at hm
+            · cases hm; rfl
+            · cases hm
+          show m.nodeCount = _
+          rw [this]; unfold dumpNodeObs; rw [List.length_map]; exact sortBy_length _ _
+        · have : m.edgeCount = (dumpEdgeObs g).length := by
+            unfold metricsOf at hm
+            split at hm
+            · cases hm; rfl
+            · cases hm
+          show m.edgeCount = _
+          rw [this]; unfold dumpEdgeObs; rw [List.length_map]; exact sortBy_length _ _
+      · exact ih ds hrest g d h
+
 /-! ### The gap between metrics equality and isomorphism -/
 
 /-- two self loops -/
